@@ -175,3 +175,17 @@ Proof.
   intros e He. destruct (add_all_triples ts [] g H e He) as [[]|X]. exact X.
 Qed.
 Print Assumptions C05_reachable_graphs_consistent.
+
+(* anchors in zones whose offset has seconds (local mean times) are outside time_dom; after F24 they are printed in UTC
+   and come back as the SAME INSTANT in UTC (before F24 the truncated offset changed the instant) *)
+Theorem C05_predicate_zone_seconds_partial : forall O, quote_laws O -> forall id t,
+  id <> [] -> (t_off t mod 60 <> 0)%Z -> time_ok O (mkTime (t_ns t) 0) ->
+  parse_pred O (print_pred O (mkPred id (Some t))) = Ok (mkPred id (Some (mkTime (t_ns t) 0))).
+Proof.
+  intros O Q id t Hid Hoff Hok.
+  assert (E : print_pred O (mkPred id (Some t)) = print_pred O (mkPred id (Some (mkTime (t_ns t) 0)))).
+  { unfold print_pred. cbn [pid panchor]. unfold norm_anchor. cbn [t_ns t_off].
+    destruct (t_off t mod 60 =? 0)%Z eqn:E; [apply Z.eqb_eq in E; contradiction | reflexivity]. }
+  rewrite E. apply (pred_roundtrip_g O Q). split; [destruct id; [contradiction | reflexivity] | exact Hok].
+Qed.
+Print Assumptions C05_predicate_zone_seconds_partial.
